@@ -68,11 +68,18 @@ type ParsedLine struct {
 	line               string
 	includeFileName    string
 	excludeFileNames   []string
-	suffixReplacements map[string]string
+	suffixReplacements []suffixReplacement
 	definitions        map[string]string
 	prefix             string
 	suffix             string
 	flags              string
+}
+
+// suffixReplacement is a single `match replacement` pair of an include directive.
+// Pairs are kept in the order in which they were written.
+type suffixReplacement struct {
+	match       string
+	replacement string
 }
 
 // NewParser creates a new parser from an io.Reader.
@@ -223,7 +230,7 @@ func (p *Parser) parseLine(line string) ParsedLine {
 	return pl
 }
 
-func buildPairMap(input string) map[string]string {
+func buildPairMap(input string) []suffixReplacement {
 	if len(strings.TrimSpace(input)) == 0 {
 		return nil
 	}
@@ -234,9 +241,9 @@ func buildPairMap(input string) map[string]string {
 		logger.Panic().Msgf("uneven number of arguments found: %s", input)
 	}
 
-	pairMap := map[string]string{}
+	pairMap := make([]suffixReplacement, 0, len(list)/2)
 	for i := 0; i < len(list); i += 2 {
-		pairMap[list[i]] = list[i+1]
+		pairMap = append(pairMap, suffixReplacement{list[i], list[i+1]})
 	}
 
 	logger.Trace().Msgf("Built pair map: %v", pairMap)
